@@ -317,6 +317,7 @@ def main(argv):
             mout = None
     tdis = 0
     hangs = 0
+    fails = 0
     for i, (width, keep, delims, child, inp) in enumerate(tcases):
         argv = [tool, "-w", str(width)]
         if not keep:
@@ -324,9 +325,11 @@ def main(argv):
         if delims is not None:
             argv += ["-d", "".join(chr(x) for x in delims)]
         argv.append(os.path.join(CHILDREN, "child_%s.py" % child))
-        if hangs >= 3:
-            break
+        if hangs >= 3 or fails >= 12:
+            break                      # enough evidence; do not burn minutes on a tool that is clearly broken
         st, so, se = run_limited(argv, stdin=inp, timeout=10, mem_mb=2048)
+        if st != 0:
+            fails += 1
         c.count(("tool", width, keep, tuple(delims or ()), child, inp), nontrivial=len(inp) > 0, bucket="tool/" + child)
         rep = {"op": "tool", "argv": argv[1:-1] + ["child_%s.py" % child], "stdin_hex": hx(inp), "stdin": inp.decode("utf-8", "replace"),
                "status": st, "stdout_hex": hx(so), "stderr": se.decode("utf-8", "replace")[-300:]}
@@ -402,7 +405,7 @@ def main(argv):
                 ls.append(b"line %d" % i)
         return ls
 
-    stream_hangs = [hangs]      # a tool that already hung is not fed 20 more long streams
+    stream_hangs = [hangs + (3 if fails >= 12 else 0)]      # a tool that already hung/crashed repeatedly is not fed 20 more long streams
 
     def check_stream(tag, ls, st, so, se, how):
         if st == "timeout":
